@@ -324,6 +324,9 @@ def gen_update_case(rng, i, witness=None):
         tramp = (tend + PG - 1) // PG * PG - 16
     # ---- functions
     tight = witness is None and rng.random() < 0.3     # adjacent functions exactly as long as a visit looks
+    stripped = (not tight) and ty == 5 and rng.random() < 0.12     # no symbol at all: every location is a nameless site
+    if stripped:
+        tags.append("stripped")
     nf = rng.choice([1, 2, 3, 3, 4, 5, 6])
     names = rng.sample(UNAMES, nf)
     funcs = []
@@ -365,7 +368,7 @@ def gen_update_case(rng, i, witness=None):
         code = bytearray(body)
         while len(code) < spacing:
             code.append(rng.choice([0xc3, 0x55, 0x90, 0x48, 0x89, 0xcc, 0x00, 0xe8]))
-        named = rng.random() < 0.85
+        named = rng.random() < 0.85 and not stripped
         pre = 0
         if ty == 5 and kind == "gcc" and not endbr and rng.random() < 0.3:
             # -fpatchable-function-entry=N,M: M NOPs (and the recorded location) in front of the entry;
@@ -437,7 +440,10 @@ def gen_update_case(rng, i, witness=None):
     present = [f["name"] for f in funcs]
     opts = gen_opts(rng, ptype, rng.choice([1, 1, 2, 3, 4]), names=present, mods=["main", "ma", "", "other", "mainx"],
                     pmod=0.25)
-    if rng.random() < 0.5:
+    if stripped and ptype == 1:
+        ptype = rng.choice([2, 3])
+        opts = gen_opts(rng, ptype, rng.choice([1, 2]), names=present, mods=["main", ""], pmod=0.2)
+    if rng.random() < 0.5 or stripped:
         opts.insert(0, ("P", {1: rng.choice(present), 2: ".", 3: "*"}[ptype]))
     ncode = rng.choice([0, 0, 0, 0, 1, 3])
     return {"kind": "upd", "ty": ty, "min": minsz, "npages": npages, "perms": "".join(perms), "text_addr": text_addr,
@@ -573,6 +579,83 @@ def find_json(c):
             "implementation": {"type": c.get("itype"), "check_trace_functions": c.get("chk")}}
 
 
+# ---------------------------------------------------------------- reading the patchable section (load bias)
+RPL_LINKS = {
+    "gnu-pie": ["-pie"],
+    "gnu-exec": ["-fno-pie", "-no-pie"],
+    "lld-pie": ["-fuse-ld=lld", "-pie"],
+    "lld-pie-base200000": ["-fuse-ld=lld", "-pie", "-Wl,--image-base=0x200000"],
+    "lld-pie-base7000000": ["-fuse-ld=lld", "-pie", "-Wl,--image-base=0x7000000"],
+    "lld-exec": ["-fuse-ld=lld", "-fno-pie", "-no-pie"],
+}
+
+
+def build_rpl_elfs(ctx, rng):
+    """real ELF files with a __patchable_function_entries section, linked by GNU ld and lld, PIE and not, with
+    zero and non-zero first-segment p_vaddr: (kind, path, dyn, sh_addr, nentries, first_vaddr)"""
+    d = os.path.join(ctx.scratch, "rpl")
+    os.makedirs(d, exist_ok=True)
+    out = []
+    for kind, fl in RPL_LINKS.items():
+        k = rng.randrange(1, 6)
+        src = os.path.join(d, kind + ".c")
+        open(src, "w").write("".join("__attribute__((noinline)) int f%d(int x) { return x * %d + 1; }\n" % (i, i + 2)
+                                     for i in range(k)) +
+                             "int main(void) { int s = 0; %s return s & 1; }\n" % " ".join("s += f%d(s);" % i for i in range(k)))
+        exe = os.path.join(d, "rpl-" + kind)
+        rc, o, e = sh(["gcc", "-O1", "-fpatchable-function-entry=5"] + fl + ["-o", exe, src], timeout=120)
+        if rc != 0:
+            ctx.log("rpl: cannot link %s (%s); skipped" % (kind, e.strip()[-80:]))
+            continue
+        rc, o, e = sh(["readelf", "-hSlW", exe], check=True)
+        dyn = "DYN" in re.search(r"Type:\s+(\S+)", o).group(1)
+        m = re.search(r"__patchable_\S*\s+PROGBITS\s+([0-9a-f]+)\s+[0-9a-f]+\s+([0-9a-f]+)", o)
+        first = re.search(r"\n\s+LOAD\s+0x[0-9a-f]+\s+0x([0-9a-f]+)", o)
+        if not m or not first:
+            ctx.log("rpl: no patchable section in %s; skipped" % kind)
+            continue
+        out.append((kind, exe, dyn, int(m.group(1), 16), int(m.group(2), 16) // 8, int(first.group(1), 16)))
+    return out
+
+
+def gen_rpl_case(rng, elf):
+    kind, path, dyn, sh_addr, n, first = elf
+    locs = sorted(first + rng.randrange(0x1000, 0x3000) for _ in range(n))
+    return {"kind": "rpl", "elf": kind, "path": path, "dyn": dyn, "sh_addr": sh_addr, "first_vaddr": first, "locs": locs,
+            "tags": ["link=" + kind, "first_vaddr=0" if first == 0 else "first_vaddr!=0", "ET_DYN" if dyn else "ET_EXEC"]}
+
+
+def rpl_lines(c):
+    return ["RPL %s %d %d %d %d %s" % (hx(c["path"]), 1 if c["dyn"] else 0, c["sh_addr"], c["first_vaddr"], len(c["locs"]),
+                                       " ".join("%d" % l for l in c["locs"]))]
+
+
+def read_rpl(out, c):
+    k = out.next().split()
+    c["fatal"], c["rtype"], c["targets"] = False, 0, []
+    if k[0] == "FATAL":
+        c["fatal"] = True
+        return
+    if k[0] == "ERR":
+        raise RuntimeError("c14 harness (RPL): " + " ".join(k))
+    if k[0] != "RP":
+        raise RuntimeError("c14 harness (RPL): unexpected line %r" % k)
+    c["rtype"], c["targets"] = int(k[1]), [int(x) for x in k[3:]]
+
+
+def c_rcase(c):
+    return ("{| r_dyn := %s; r_sh_addr := %s; r_first_vaddr := %s; r_locs := [%s]; i_fatal_r := %s; i_rtype := %d; "
+            "i_targets := [%s] |}" % (cbool(c["dyn"]), cz(c["sh_addr"]), cz(c["first_vaddr"]),
+                                      ";".join(cz(l) for l in c["locs"]), cbool(c["fatal"]), c["rtype"],
+                                      ";".join(cz(t) for t in c["targets"])))
+
+
+def rpl_json(c):
+    return {"link": c["elf"], "ET_DYN": c["dyn"], "sh_addr": c["sh_addr"], "first_vaddr": c["first_vaddr"],
+            "locations": c["locs"], "implementation": {"died": c.get("fatal"), "type": c.get("rtype"),
+                                                       "targets": c.get("targets")}}
+
+
 PRE = """From Coq Require Import NArith ZArith List Bool.
 Import ListNotations.
 Require Import UV.C14.Model.
@@ -580,8 +663,9 @@ Local Open Scope N_scope.
 """
 
 
-def evaluate(ctx, pcases, ucases, name="cases", fixed=False, fcases=()):
-    defs = "Definition fcases : list fcase := [\n%s\n].\n" % ";\n".join(c_fcase(c) for c in fcases)
+def evaluate(ctx, pcases, ucases, name="cases", fixed=False, fcases=(), rcases=()):
+    defs = "Definition rcases : list rcase := [\n%s\n].\n" % ";\n".join(c_rcase(c) for c in rcases)
+    defs += "Definition fcases : list fcase := [\n%s\n].\n" % ";\n".join(c_fcase(c) for c in fcases)
     defs += "Definition pcases : list pcase := [\n%s\n].\n" % ";\n".join(c_pcase(c) for c in pcases)
     defs += "Definition ucases : list ucase := [\n%s\n].\n" % ";\n".join(c_ucase(c) for c in ucases)
     res = coq.run_cases(ctx, name, PRE, defs, [
@@ -592,6 +676,8 @@ def evaluate(ctx, pcases, ucases, name="cases", fixed=False, fcases=()):
         ("u_in_layout", "bad_indices (fun u => negb (u_layout u)) ucases 0"),
         ("f_mismatch", "bad_indices (f_agrees true) fcases 0"),
         ("f_violations", "bad_indices f_ok fcases 0"),
+        ("r_mismatch", "bad_indices (r_agrees true) rcases 0"),
+        ("r_violations", "bad_indices r_ok rcases 0"),
     ])
     if res is None:
         return None
@@ -626,7 +712,7 @@ def impl_json(c):
 
 
 # ---------------------------------------------------------------- in-process run
-def run_inproc(ctx, h, pcases, ucases, fcases=()):
+def run_inproc(ctx, h, pcases, ucases, fcases=(), rcases=()):
     lines = []
     for c in pcases:
         lines += pat_lines(c)
@@ -634,6 +720,8 @@ def run_inproc(ctx, h, pcases, ucases, fcases=()):
         lines += upd_lines(c)
     for c in fcases:
         lines += find_lines(c)
+    for c in rcases:
+        lines += rpl_lines(c)
     out = Out(h.run(lines))
     for c in pcases:
         read_pat(out, c)
@@ -641,6 +729,8 @@ def run_inproc(ctx, h, pcases, ucases, fcases=()):
         read_upd(out, c)
     for c in fcases:
         read_find(out, c)
+    for c in rcases:
+        read_rpl(out, c)
 
 
 def detect_variant(ctx, h):
@@ -654,9 +744,20 @@ def detect_variant(ctx, h):
     return c
 
 
-def verdict_inproc(ctx, pcases, ucases, res, fcases=()):
+def verdict_inproc(ctx, pcases, ucases, res, fcases=(), rcases=()):
     if res is None:
         return
+    for i in res.get("r_violations", [])[:3]:
+        c = rcases[i]
+        ctx.violation("C14 violated: read_patchable_loc does not deliver the patchable locations of a %s module "
+                      "(first-segment p_vaddr %#x) relative to the module's start (or the process died reading them)"
+                      % (c["elf"], c["first_vaddr"]), {"mode": "rpl", "case": rpl_json(c)}, True)
+    if res.get("r_mismatch") and not res.get("r_violations"):
+        c = rcases[res["r_mismatch"][0]]
+        ctx.violation("model and implementation of read_patchable_loc disagree (%d cases); the property checker accepts "
+                      "the implementation's result on every explored case" % len(res["r_mismatch"]),
+                      {"correspondence": "C14.Model.read_patchable_loc vs arch/x86_64/mcount-dynamic.c",
+                       "mode": "rpl", "case": rpl_json(c)}, False)
     for i in res.get("f_violations", [])[:3]:
         c = fcases[i]
         ctx.violation("C14 violated: a module with a patchable function (NOP form at the post-endbr64 entry of an "
@@ -773,8 +874,13 @@ def run(ctx):
     build_reallib(ctx)
     elfs = build_elfs(ctx)
     fcases = [gen_find_case(rng, i, elfs) for i in range(ctx.n(120, 1200))]
+    relfs = build_rpl_elfs(ctx, rng)
+    rcases = [gen_rpl_case(rng, e) for e in relfs for _ in range(ctx.n(3, 20))]
     wit = detect_variant(ctx, h)
-    run_inproc(ctx, h, pcases, ucases, fcases)
+    run_inproc(ctx, h, pcases, ucases, fcases, rcases)
+    for c in rcases:
+        ctx.case(key=("rpl", c["elf"], tuple(c["locs"])), nontrivial=bool(c["targets"]),
+                 tags=["rpl:" + t for t in c["tags"]] + ["rpl:died" if c["fatal"] else "rpl:ran"], size=len(c["locs"]))
     for c in fcases:
         ctx.case(key=("find", c["elf"], c["wbase"], c["window"], tuple(c["syms"])), nontrivial=c["itype"] != 0,
                  tags=["find:" + t for t in set(c["tags"])] + ["find:type=%d" % c["itype"]], size=len(c["window"]))
@@ -804,10 +910,10 @@ def run(ctx):
     # defect returns, the checker rejects the implementation's behaviour and a VIOLATION is reported.
     ctx.c14_fixed = True
     ctx.extra["trampoline_page_variant"] = "as found (pr_err)" if wit["impl"]["fatal"] else "repaired (returns -1)"
-    res = evaluate(ctx, pcases, ucases + [wit], fixed=True, fcases=fcases)
+    res = evaluate(ctx, pcases, ucases + [wit], fixed=True, fcases=fcases, rcases=rcases)
     if res is not None:
         ctx.case(key=("witness", KNOWN_KEY), tags=["update:witness-trampoline-page-occupied"])
-        verdict_inproc(ctx, pcases, ucases + [wit], res, fcases)
+        verdict_inproc(ctx, pcases, ucases + [wit], res, fcases, rcases)
     from props import c14_e2e
     c14_e2e.run(ctx, objdir, h)
 
